@@ -56,7 +56,7 @@ MANIFEST = dict(
          'constrain_path=False and assignments to fs.path / fs.constrain_path from outside the class are exempt.',
 )
 
-IMPORTS = ['SV.SM.PathNorm', 'SV.SM.PathNormEnum', 'SV.SM.PathOps', 'SV.SM.PathWalkRel', 'SV.Gen.Containment_gen', 'SV.Gen.FsOps_gen', 'SV.Props.C18', 'Coq.NArith.NArith',
+IMPORTS = ['SV.SM.PathNorm', 'SV.SM.PathNormEnum', 'SV.SM.PathOps', 'SV.SM.PathWalkRel', 'SV.SM.PathMemo', 'SV.Gen.Containment_gen', 'SV.Gen.FsOps_gen', 'SV.Props.C18', 'Coq.NArith.NArith',
            'Coq.Lists.List']
 PRE = 'Import ListNotations.\n'
 CWD = '/w/cwd'
@@ -418,7 +418,9 @@ ROOT_CONFIGS = [
     ('nested', '{BASE}/t/root/sub'),           # sibling t/root/sub_evil extends its name
 ]
 CHAIN_PREFIXES = [None, '', 'sub', 'sub/']
-OPS = ['contains', 'getitem', 'open_bin', 'open_str', 'walk', 'handle_loose', 'handle_made']
+ESCAPE_KEYS = ('escape-', 'handle-escape-', 'history-escape-')
+OPS = ['contains', 'getitem', 'open_bin', 'open_str', 'walk', 'handle_loose', 'handle_made', 'after_loose']
+SUB_OPS = ['contains', 'getitem', 'open_bin', 'open_str', 'walk']
 SEGS = ['..', '..', '.', '', 'in.txt', 'a', 'sub', 'deep.txt', 'root', 'root_evil', 'secret.txt', 't', 'rootx', 'root.bak',
         'sub_evil', 'x.txt', 'x', 'above.txt', 'top.txt', 'other', 'roo', 'nested.txt', 'elsewhere', 'data.txt']
 
@@ -470,10 +472,10 @@ def build_tree(base: Path) -> None:
         p.write_text(f'CONTENT-OF:{rel}\n')
 
 
-def make_fs(base: str, root_spec: str, chain_prefix):
+def make_fs(base: str, root_spec: str, chain_prefix, constrain: bool = True):
     from srctools.filesys import FileSystemChain, RawFileSystem
     spec = root_spec.replace('{BASE}', base)
-    raw = RawFileSystem(Path(spec[5:]) if spec.startswith('Path:') else spec)
+    raw = RawFileSystem(Path(spec[5:]) if spec.startswith('Path:') else spec, constrain_path=constrain)
     if chain_prefix is None:
         return raw, raw
     return FileSystemChain((raw, chain_prefix)), raw
@@ -492,6 +494,37 @@ def _handle_for(fs, raw, chain_prefix, h):
     """A File of the raw filesystem as the object under test would hand it out (wrapped for a FileSystemChain)."""
     from srctools.filesys import File
     return h if chain_prefix is None else File(fs, h.path, h)
+
+
+def _sub_op(fs, sub: str, path: str, data: list, walk_limit: int) -> str:
+    """One plain operation, used by the history op after_loose on both filesystems."""
+    if sub == 'contains':
+        return str(path in fs)
+    if sub == 'getitem':
+        f = fs[path]
+        with f.open_bin() as fh:
+            data.append(fh.read().decode())
+        f.cache_key()
+        return 'file'
+    if sub == 'open_bin':
+        with fs.open_bin(path) as fh:
+            data.append(fh.read().decode())
+        return 'data'
+    if sub == 'open_str':
+        with fs.open_str(path) as fh2:
+            data.append(fh2.read())
+        return 'data'
+    n = 0
+    for f in fs.walk_folder(path):      # lazily: an unconstrained walk of '../../..' must not list the whole disk
+        n += 1
+        if n > walk_limit:
+            break
+        try:                            # a yielded handle may itself be refused (literal backslash names); keep walking
+            with f.open_bin() as fh:
+                data.append(fh.read().decode())
+        except ValueError:
+            pass
+    return f'{n} files'
 
 
 def run_op(base: str, root_spec: str, chain_prefix, op: str, path_t: str) -> dict:
@@ -519,6 +552,15 @@ def run_op(base: str, root_spec: str, chain_prefix, op: str, path_t: str) -> dic
                 prep = 'no-handle:' + type(e).__name__
         elif op == 'handle_made':
             handle = _handle_for(fs, raw, chain_prefix, File(raw, path, path))
+        elif op == 'after_loose':
+            # history: an UNconstrained filesystem on the same folder (same chain prefix) performs every plain operation
+            # with this name first (not observed: it is exempt); then the constrained one is asked the same
+            loose, _ = make_fs(base, root_spec, chain_prefix, constrain=False)
+            for sub in SUB_OPS:
+                try:
+                    _sub_op(loose, sub, path, [], 3)
+                except (OSError, ValueError, UnicodeError):
+                    pass
         with observe() as ev:
             try:
                 if prep is not None:
@@ -552,6 +594,16 @@ def run_op(base: str, root_spec: str, chain_prefix, op: str, path_t: str) -> dic
                             except RootEscapeError:
                                 rejected += 1
                     out = f'ok:{n} files'
+                elif op == 'after_loose':
+                    done = []
+                    for sub in SUB_OPS:
+                        try:
+                            done.append(sub + '=' + _sub_op(fs, sub, path, data, 60))
+                        except RootEscapeError:
+                            pass
+                        except (OSError, ValueError, UnicodeError) as e:
+                            done.append(sub + ':' + type(e).__name__)
+                    out = 'ok:after-unconstrained ' + ','.join(done) if done else 'RootEscapeError'
                 elif op in ('handle_loose', 'handle_made'):
                     done = []
                     # a handle of the unconstrained system opens through ITS system when asked itself: only the calls
@@ -652,7 +704,8 @@ def search_trees(ck: Ck) -> None:
         if not r['escapes'] and not r['leaked']:
             return False
         where = r['escapes'][0][1] if r['escapes'] else os.path.join(base, r['leaked'][0][len('CONTENT-OF:'):])
-        key = ('handle-' if op.startswith('handle_') else '') + 'escape-' + classify(r['root'], where)
+        key = ('handle-' if op.startswith('handle_') else 'history-' if op == 'after_loose' else '') + 'escape-' \
+            + classify(r['root'], where)
         rep = {'root': root_spec, 'root_config': label, 'chain_prefix': cp, 'op': op, 'path': path_t,
                'file_handle_path': r['handle_path'],
                'outcome': r['outcome'], 'accessed_outside_root': [[k, p.replace(base, '{BASE}')] for k, p in r['escapes'][:4]],
@@ -674,7 +727,7 @@ def search_trees(ck: Ck) -> None:
             if cp is not None and label not in ('abs', 'relative', 'nested'):
                 continue
             for path_t in tp:
-                ops = OPS if cp is None or label == 'abs' else ['getitem', 'walk', 'handle_made']
+                ops = OPS if cp is None or label == 'abs' else ['getitem', 'walk', 'handle_made', 'after_loose']
                 for op in ops:
                     case(label, root_spec, cp, op, path_t)
     # 2. random segment paths
@@ -927,7 +980,12 @@ def run(ck: Ck) -> None:
             'every_os_call_receives_a_resolve_path_result': 'every_os_call_receives_a_resolve_result',
             'file_handle_consumers_revalidate_the_stored_string': 'handle_consumers_revalidate_stored_string',
             'chain_and_file_classes_touch_no_file_system_themselves': 'chain_and_file_classes_touch_no_file_system',
+            # nothing (decorator / cache / rebinding / attribute hook / subclass override) between a caller and the bodies read
+            'resolve_path_is_called_unwrapped': 'resolve_path_is_not_wrapped',
+            'no_method_of_the_file_system_classes_is_wrapped': 'no_method_of_the_file_system_classes_is_wrapped',
         })
+        for w in side.get('resolve_path_wrappers', []) + ck.extra.get('translated', {}).get('FsOps_gen', {}).get('method_wrappers', []):
+            ck.notes.append('wrapper between callers and a method body: ' + ' / '.join(w))
         ops_side = ck.extra.get('translated', {}).get('FsOps_gen', {})
         for m, c, b, p, _ in ops_side.get('raw_sites', []):
             ck.hist('os_call_site', f'{m}:{c}:{b}:{p}')
@@ -956,24 +1014,26 @@ def run(ck: Ck) -> None:
     search_unify(ck)
     t = _stage(ck, 'search_unify', t)
     keys = {v['key'] for v in ck.violations}
-    if any(k.startswith(('escape-', 'handle-escape-')) for k in keys):
+    if any(k.startswith(ESCAPE_KEYS) for k in keys):
         ck.explain('instance:guard_is_a_sound_segmentwise_form')
         ck.explain('instance:every_fs_access_goes_through_resolve_path')
         ck.explain('instance:every_os_call_receives_a_resolve_path_result')
         ck.explain('instance:file_handle_consumers_revalidate_the_stored_string')
         ck.explain('instance:chain_and_file_classes_touch_no_file_system_themselves')
+        ck.explain('instance:resolve_path_is_called_unwrapped')
+        ck.explain('instance:no_method_of_the_file_system_classes_is_wrapped')
         ck.explain('translate:FsOps_gen')
         ck.explain('instance:root_')
         ck.explain('instance:constrain_flag')
         ck.explain('translate:Containment_gen')
     # A model/implementation disagreement is explained only when every disagreeing function belongs to the part whose
     # concrete violation was exhibited (unify_path by an escaping pack path, _resolve_path by an observed escape).
-    if DISAGREE.get('ops') and any(k.startswith(('escape-', 'handle-escape-')) for k in keys):
+    if DISAGREE.get('ops') and any(k.startswith(ESCAPE_KEYS) for k in keys):
         ck.explain('correspondence:operations_model')
     for stage, ob in (('exhaustive', 'correspondence:paths_exhaustive'), ('random', 'correspondence:paths_random')):
         fs = DISAGREE.get(stage, set())
         if fs and all(f == 'unify_path' and 'unify-path-escapes' in keys
-                      or f.startswith('resolve[') and any(k.startswith(('escape-', 'handle-escape-')) for k in keys) for f in fs):
+                      or f.startswith('resolve[') and any(k.startswith(ESCAPE_KEYS) for k in keys) for f in fs):
             ck.explain(ob)
 
 
